@@ -32,6 +32,7 @@ EXPLANATION = (
     "byte strings (string stripping / codecs)."
     ' Second session: no except clause in the codec modules may swallow a failed item conversion (three read sites excepted); the 6-byte header is parsed only under a guard that turns a short header into Evt17 (try/except struct.error or a dominating length test), with type and length taken from bytes [0] and [2:6] big-endian whatever the spelling; every codec item loop hands on each item or raises.'
     ' Fourth session: (pdv-not-dropped, state-per-message) borrowed from C15 - every PDV of a P-DATA-TF is classified and used, and what the DIMSE provider accumulates per message is reset with the message.'
+    " Fifth round: (malformed-is-invalid) borrowed from C01's evaluation of the item generators on malformed streams; the termination rule accepts `cursor = cursor + E`, `cursor = nxt` and generators that delegate with `yield from`; the 6-byte header may be held in a local bound to the read."
 )
 
 
